@@ -152,6 +152,28 @@ func builtinIntrinsics() map[string]Intrinsic {
 		}}}}
 	}
 	bufMethods(m)
+	builderMethods(m)
+	// internal/bytealg entry points reached from standard-library code that is run from its SSA
+	m["internal/bytealg.IndexByteString"] = func(x *Exec, s *State, a []Value, _ *ssa.Call) []Outcome {
+		return x.indexByte(a[0].(Str), a[1].(*smt.Term))
+	}
+	m["internal/bytealg.IndexByte"] = func(x *Exec, s *State, a []Value, _ *ssa.Call) []Outcome {
+		return x.indexByte(s.bytesOf(a[0].(Slice)), a[1].(*smt.Term))
+	}
+	m["internal/bytealg.IndexString"] = func(x *Exec, s *State, a []Value, _ *ssa.Call) []Outcome {
+		return x.indexSub(a[0].(Str), a[1].(Str))
+	}
+	m["internal/bytealg.Index"] = func(x *Exec, s *State, a []Value, _ *ssa.Call) []Outcome {
+		return x.indexSub(s.bytesOf(a[0].(Slice)), s.bytesOf(a[1].(Slice)))
+	}
+	m["internal/bytealg.CountString"] = func(x *Exec, s *State, a []Value, _ *ssa.Call) []Outcome {
+		c := x.Ctx
+		n := intConst(0)
+		for _, b := range a[0].(Str).B {
+			n = c.Ite(c.Eq(b, a[1].(*smt.Term)), c.Add(n, intConst(1)), n)
+		}
+		return one(n)
+	}
 	// ---- html ----
 	m["html.EscapeString"] = func(x *Exec, s *State, a []Value, _ *ssa.Call) []Outcome { return x.htmlEscape(s, a[0].(Str)) }
 	// ---- unicode/utf8 ----
@@ -980,11 +1002,162 @@ func (x *Exec) format(s *State, fstr Str, args []Value) Value {
 			return Opaque{fmt.Sprintf("Sprintf verb %%%s%c", spec, verb)}
 		}
 	}
+	if ai < len(args) {
+		return Opaque{"Sprintf verb: unused operands"}
+	}
 	return out
 }
 
 func inSprintf(x *Exec, s *State, a []Value, _ *ssa.Call) []Outcome {
-	return one(x.format(s, a[0].(Str), s.sliceElems(a[1].(Slice))))
+	fstr := a[0].(Str)
+	if _, ok := fstr.Concrete(); !ok {
+		return x.formatSym(s, fstr, s.sliceElems(a[1].(Slice)))
+	}
+	v := x.format(s, fstr, s.sliceElems(a[1].(Slice)))
+	if o, isO := v.(Opaque); isO && (strings.HasPrefix(o.Why, "Sprintf verb") || o.Why == "missing format operand" || o.Why == "bad format") {
+		return x.formatSym(s, fstr, s.sliceElems(a[1].(Slice)))
+	}
+	return one(v)
+}
+
+// formatSym models fmt's doPrintf for a format with symbolic bytes and operands that are
+// plain strings (or values with a String method, for %s and %v only). Every byte of the
+// format is split into "literal" and "'%'"; after a '%' the verb byte selects "%%", the
+// operand (%s %v), its hexadecimal form (%x %X), "string" (%T), the bad-verb form
+// "%!c(string=operand)" or "%!c(MISSING)", and "%!(NOVERB)" at the end of the format; unused
+// operands are reported as "%!(EXTRA string=operand, ...)". Flags, widths, precisions, explicit
+// argument indexes, %q and non-ASCII verbs are outside the encoded fragment: those paths
+// are cut and recorded as an assumption.
+func (x *Exec) formatSym(s *State, f Str, args []Value) []Outcome {
+	c := x.Ctx
+	type operand struct {
+		str   Str
+		plain bool // dynamic type string
+		ok    bool
+	}
+	ops := make([]operand, len(args))
+	for i, a := range args {
+		str, ok := x.stringify(s, a)
+		iv, _ := a.(Iface)
+		_, plain := iv.V.(Str)
+		if plain && iv.T != nil {
+			if b, isB := iv.T.(*types.Basic); !isB || b.Kind() != types.String {
+				plain = false
+			}
+		}
+		ops[i] = operand{str, plain, ok}
+	}
+	const cutWhy = "fmt format with symbolic bytes: flags, width, precision, argument index, %q, %c-style verbs on non-string operands and non-ASCII verbs are not encoded"
+	var outs []Outcome
+	n := len(f.B)
+	lit := func(out Str, t string) Str { return concatStr(out, StrOf(t)) }
+	var rec func(i, ai int, out Str, g *smt.Term)
+	finish := func(ai int, out Str, g *smt.Term) {
+		if ai < len(ops) {
+			out = lit(out, "%!(EXTRA ")
+			for k := ai; k < len(ops); k++ {
+				if !ops[k].plain || !ops[k].ok {
+					outs = append(outs, Outcome{Cond: g, Cut: cutWhy})
+					return
+				}
+				if k > ai {
+					out = lit(out, ", ")
+				}
+				out = concatStr(lit(out, "string="), ops[k].str)
+			}
+			out = lit(out, ")")
+		}
+		outs = append(outs, Outcome{Cond: g, Val: out})
+	}
+	rec = func(i, ai int, out Str, g *smt.Term) {
+		if g == smt.False {
+			return
+		}
+		if i == n {
+			finish(ai, out, g)
+			return
+		}
+		b := f.B[i]
+		isPct := c.Eq(b, smt.Byte('%'))
+		if isPct != smt.True {
+			o2 := Str{B: append(append([]*smt.Term(nil), out.B...), b)}
+			rec(i+1, ai, o2, c.And(g, c.Not(isPct)))
+		}
+		if isPct == smt.False {
+			return
+		}
+		g2 := c.And(g, isPct)
+		if feas, _ := x.feasible(s, g2); !feas {
+			return
+		}
+		if i+1 == n {
+			finish(ai, lit(out, "%!(NOVERB)"), g2)
+			return
+		}
+		v := f.B[i+1]
+		in := func(set string) *smt.Term {
+			r := smt.False
+			for k := 0; k < len(set); k++ {
+				r = c.Or(r, c.Eq(v, smt.Byte(set[k])))
+			}
+			return r
+		}
+		cutC := c.Or(in("#0+- 123456789.*[q"), c.Uge(v, smt.Byte(0x80)))
+		if cutC != smt.False {
+			outs = append(outs, Outcome{Cond: c.And(g2, cutC), Cut: cutWhy})
+		}
+		g3 := c.And(g2, c.Not(cutC))
+		isP := c.Eq(v, smt.Byte('%'))
+		rec(i+2, ai, lit(out, "%"), c.And(g3, isP))
+		g4 := c.And(g3, c.Not(isP))
+		if g4 == smt.False {
+			return
+		}
+		if ai >= len(ops) {
+			o2 := lit(out, "%!")
+			o2.B = append(o2.B, v)
+			rec(i+2, ai, lit(o2, "(MISSING)"), g4)
+			return
+		}
+		op := ops[ai]
+		if !op.ok {
+			outs = append(outs, Outcome{Cond: g4, Cut: cutWhy})
+			return
+		}
+		isSV := in("sv")
+		rec(i+2, ai+1, concatStr(out, op.str), c.And(g4, isSV))
+		rest := c.And(g4, c.Not(isSV))
+		if rest == smt.False {
+			return
+		}
+		if !op.plain {
+			outs = append(outs, Outcome{Cond: rest, Cut: cutWhy})
+			return
+		}
+		for _, up := range []bool{false, true} {
+			vb := byte('x')
+			if up {
+				vb = 'X'
+			}
+			hx := out
+			hx.B = append([]*smt.Term(nil), out.B...)
+			for _, ob := range op.str.B {
+				hx.B = append(hx.B, x.hexNibble(c.Bin(smt.OpLshr, ob, smt.Byte(4)), up), x.hexNibble(c.Bin(smt.OpBvAnd, ob, smt.Byte(15)), up))
+			}
+			rec(i+2, ai+1, hx, c.And(rest, c.Eq(v, smt.Byte(vb))))
+		}
+		rec(i+2, ai+1, lit(out, "string"), c.And(rest, c.Eq(v, smt.Byte('T'))))
+		bad := c.And(rest, c.Not(in("xXT")))
+		o2 := lit(out, "%!")
+		o2.B = append(o2.B, v)
+		o2 = concatStr(lit(o2, "(string="), op.str)
+		rec(i+2, ai+1, lit(o2, ")"), bad)
+	}
+	rec(0, 0, Str{}, smt.True)
+	if len(outs) == 0 {
+		unsupported("fmt format with symbolic bytes: no feasible case")
+	}
+	return outs
 }
 
 func inSprint(x *Exec, s *State, a []Value, _ *ssa.Call) []Outcome {
@@ -1012,6 +1185,25 @@ func inFprintf(x *Exec, s *State, a []Value, _ *ssa.Call) []Outcome {
 	w, ok := a[0].(Iface)
 	if !ok || w.T == nil || w.T.String() != "*bytes.Buffer" {
 		unsupported("fmt.Fprintf to %v", w.T)
+	}
+	_, conc := a[1].(Str).Concrete()
+	if conc {
+		if o, isO := x.format(s, a[1].(Str), s.sliceElems(a[2].(Slice))).(Opaque); isO && (strings.HasPrefix(o.Why, "Sprintf verb") || o.Why == "missing format operand" || o.Why == "bad format") {
+			conc = false
+		}
+	}
+	if !conc {
+		outs := x.formatSym(s, a[1].(Str), s.sliceElems(a[2].(Slice)))
+		p := w.V.(Ptr)
+		for i := range outs {
+			if outs[i].Cut != "" {
+				continue
+			}
+			str := outs[i].Val.(Str)
+			outs[i].Val = Tuple{intConst(len(str.B)), Iface{}}
+			outs[i].Then = func(cs *State) { bufAppend(cs, p, str) }
+		}
+		return outs
 	}
 	v := x.format(s, a[1].(Str), s.sliceElems(a[2].(Slice)))
 	str, ok := v.(Str)
@@ -1121,6 +1313,75 @@ func bufMethods(m map[string]Intrinsic) {
 	}
 	m["(*bytes.Buffer).Reset"] = func(x *Exec, s *State, a []Value, _ *ssa.Call) []Outcome {
 		bufStore(s, a[0].(Ptr), Str{}, 0)
+		return one(nil)
+	}
+}
+
+// ---------- strings.Builder ----------
+// A Builder {addr *Builder; buf []byte} is modelled with its buf field holding the
+// content as a Str (the zero Builder has a nil slice there).
+
+func sbLoad(s *State, p Ptr) Str {
+	sv := s.load(p).(*StructVal)
+	switch c := sv.F[1].(type) {
+	case Str:
+		return c
+	case Slice:
+		return s.bytesOf(c)
+	}
+	return Str{}
+}
+
+func sbAppend(s *State, p Ptr, str Str) {
+	sv := s.load(p).(*StructVal)
+	n := &StructVal{F: append([]Value(nil), sv.F...)}
+	n.F[1] = concatStr(sbLoad(s, p), str)
+	s.store(p, n)
+}
+
+func builderMethods(m map[string]Intrinsic) {
+	m["(*strings.Builder).WriteString"] = func(x *Exec, s *State, a []Value, _ *ssa.Call) []Outcome {
+		str := a[1].(Str)
+		sbAppend(s, a[0].(Ptr), str)
+		return one(Tuple{intConst(len(str.B)), Iface{}})
+	}
+	m["(*strings.Builder).Write"] = func(x *Exec, s *State, a []Value, _ *ssa.Call) []Outcome {
+		str := s.bytesOf(a[1].(Slice))
+		sbAppend(s, a[0].(Ptr), str)
+		return one(Tuple{intConst(len(str.B)), Iface{}})
+	}
+	m["(*strings.Builder).WriteByte"] = func(x *Exec, s *State, a []Value, _ *ssa.Call) []Outcome {
+		sbAppend(s, a[0].(Ptr), Str{B: []*smt.Term{a[1].(*smt.Term)}})
+		return one(Iface{})
+	}
+	m["(*strings.Builder).WriteRune"] = func(x *Exec, s *State, a []Value, _ *ssa.Call) []Outcome {
+		p := a[0].(Ptr)
+		var outs []Outcome
+		for _, e := range x.encodeRunes(s, []Value{a[1]}) {
+			str := e.Val.(Str)
+			outs = append(outs, Outcome{Cond: e.Cond, Val: Tuple{intConst(len(str.B)), Iface{}}, Then: func(cs *State) { sbAppend(cs, p, str) }})
+		}
+		return outs
+	}
+	m["(*strings.Builder).String"] = func(x *Exec, s *State, a []Value, _ *ssa.Call) []Outcome {
+		return one(sbLoad(s, a[0].(Ptr)))
+	}
+	m["(*strings.Builder).Len"] = func(x *Exec, s *State, a []Value, _ *ssa.Call) []Outcome {
+		return one(intConst(len(sbLoad(s, a[0].(Ptr)).B)))
+	}
+	m["(*strings.Builder).Grow"] = func(x *Exec, s *State, a []Value, _ *ssa.Call) []Outcome {
+		n, ok := constInt(a[1])
+		if ok && n < 0 {
+			return panicOutcome("strings.Builder.Grow: negative count")
+		}
+		return one(nil)
+	}
+	m["(*strings.Builder).Reset"] = func(x *Exec, s *State, a []Value, _ *ssa.Call) []Outcome {
+		p := a[0].(Ptr)
+		sv := s.load(p).(*StructVal)
+		n := &StructVal{F: append([]Value(nil), sv.F...)}
+		n.F[1] = Str{}
+		s.store(p, n)
 		return one(nil)
 	}
 }
